@@ -1,4 +1,4 @@
-(* Model/Placeholders.v - placeholder recognition (prepared.py: REGEX_PARAM / find_params), parameter
+(* Model/Placeholders.v - placeholder recognition (prepared.py: find_params), parameter
    rendering (_encode_param_as_sql) and interpolation (_interpolate_params) over code points. *)
 From Coq Require Import List NArith ZArith Lia Bool.
 From MM Require Import Lib.Bytes.
@@ -12,23 +12,24 @@ Definition BSLASH := 92. Definition QMARK := 63.
 
 Definition is_quote (c : N) : bool := (c =? DQUOTE) || (c =? QUOTE) || (c =? BTICK).
 
-(* specification of REGEX_PARAM: a '?' followed by an even number of quote characters *)
-Definition count_quotes (t : text) : nat := length (filter is_quote t).
-Fixpoint spec_flags (t : text) : list bool :=
+(* find_params: one pass from the left.  open = the quote character that opened the string or identifier the scan is in
+   (None outside), esc = the previous character was a backslash escaping this one.  A '?' is a placeholder outside;
+   '...' and "..." end at their own quote character (a backslash escapes the next character - a doubled quote closes
+   and re-opens, which comes to the same), `...` ends at the next backtick *)
+Fixpoint scanf (open : option N) (esc : bool) (t : text) : list bool :=
   match t with
   | [] => []
-  | c :: r => ((c =? QMARK) && Nat.even (count_quotes r)) :: spec_flags r
+  | c :: r =>
+    if esc then false :: scanf open false r
+    else match open with
+         | None => if is_quote c then false :: scanf (Some c) false r else (c =? QMARK) :: scanf None false r
+         | Some q => if c =? q then false :: scanf None false r
+                     else if (c =? BSLASH) && negb (q =? BTICK) then false :: scanf open true r
+                     else false :: scanf open false r
+         end
   end.
 
-(* find_params: one pass from the right, carrying the parity of the quotes seen so far *)
-Fixpoint scan (t : text) : list bool * bool :=
-  match t with
-  | [] => ([], true)
-  | c :: r => let '(fl, ev) := scan r in
-              if is_quote c then (false :: fl, negb ev) else (((c =? QMARK) && ev) :: fl, ev)
-  end.
-
-Definition flags (t : text) : list bool := fst (scan t).
+Definition flags (t : text) : list bool := scanf None false t.
 Definition count_params (t : text) : N := len (filter (fun b : bool => b) (flags t)).
 
 (* zip(find_params(sql), values): each flagged position replaced by the next value, single pass *)
@@ -96,24 +97,37 @@ Definition lex_literal (t : text) : option (text * text) :=
   end.
 
 (* ---- the template grammar of the property ------------------------------------------------------ *)
-Inductive seg := Plain (t : text) | Hole | Quoted (q : N) (body : text).
+(* what a quoted segment holds: a character, or a backslash and the character it escapes *)
+Inductive item := Ch (c : N) | Esc (c : N).
+Inductive seg := Plain (t : text) | Hole | Quoted (q : N) (body : list item).
+
+(* inside q...q: any character but q itself - the OTHER quote characters and question marks included -; a backslash
+   only as an escape, and then in front of any character (q and the backslash included); inside `...` a backslash is an
+   ordinary character and nothing escapes *)
+Definition item_ok (q : N) (i : item) : bool :=
+  match i with
+  | Ch c => negb (c =? q) && ((q =? BTICK) || negb (c =? BSLASH))
+  | Esc _ => negb (q =? BTICK)
+  end.
+Definition render_item (i : item) : text := match i with Ch c => [c] | Esc c => [BSLASH; c] end.
+Definition render_body (b : list item) : text := flat_map render_item b.
 
 Definition seg_ok (s : seg) : bool :=
   match s with
   | Plain t => forallb (fun c => negb (is_quote c) && negb (c =? QMARK)) t
   | Hole => true
-  | Quoted q b => is_quote q && forallb (fun c => negb (is_quote c)) b
+  | Quoted q b => is_quote q && forallb (item_ok q) b
   end.
 
 Definition render_seg (s : seg) : text :=
-  match s with Plain t => t | Hole => [QMARK] | Quoted q b => q :: b ++ [q] end.
+  match s with Plain t => t | Hole => [QMARK] | Quoted q b => q :: render_body b ++ [q] end.
 Definition render (tpl : list seg) : text := flat_map render_seg tpl.
 
 Definition seg_flags (s : seg) : list bool :=
   match s with
   | Plain t => repeat false (length t)
   | Hole => [true]
-  | Quoted q b => false :: repeat false (length b) ++ [false]
+  | Quoted q b => false :: repeat false (length (render_body b)) ++ [false]
   end.
 Definition hole_flags (tpl : list seg) : list bool := flat_map seg_flags tpl.
 Definition holes (tpl : list seg) : nat := length (filter (fun s => match s with Hole => true | _ => false end) tpl).
